@@ -10,18 +10,55 @@ Import ListNotations.
 Require Import V.C19.Model V.C19.Proofs.
 Open Scope Z_scope.
 
-(* Assigning the value, a successful update, and stampNow stamp the share with its store's
-   current time; store_stamp false _ = None: no stamp without a store. *)
+(* Assigning the value, a successful update, installing a data record and stampNow stamp the share with
+   its store's current time; store_stamp is None for a share that does not reference a store. *)
 Theorem value_update_stamp_now : forall s w,
   (forall v, snd (step s (SetValue w v)) = ROk /\ stamp (sh w (fst (step s (SetValue w v)))) = store_stamp w s) /\
   (forall kvs, snd (step s (Update w kvs)) = ROk -> stamp (sh w (fst (step s (Update w kvs)))) = store_stamp w s) /\
+  (forall kvs, snd (step s (SetData w kvs)) = ROk -> stamp (sh w (fst (step s (SetData w kvs)))) = store_stamp w s) /\
   (snd (step s (StampNow w)) = RVal (store_stamp w s) /\ stamp (sh w (fst (step s (StampNow w)))) = store_stamp w s) /\
-  store_stamp true s = sstamp s /\ store_stamp false s = None.
-Proof. exact (fun s w => conj (setvalue_stamps s w) (conj (update_stamps s w) (conj (stampnow_stamps s w) (conj eq_refl eq_refl)))). Qed.
+  store_stamp w s = (if att w s then sstamp s else None).
+Proof. exact (fun s w => conj (setvalue_stamps s w) (conj (update_stamps s w)
+         (conj (fun kvs H => proj1 (setdata_stamps s w kvs H)) (conj (stampnow_stamps s w) eq_refl)))). Qed.
 Print Assumptions value_update_stamp_now.
 
+(* NO STAMP WITHOUT A STORE.  Whatever stamp a share carries (stamped while attached and then detached with
+   changeStore(None), or given one explicitly), once it references no store every stamping operation
+   -- value=, a successful update, a successful data assignment, stampNow, a create that adds a field --
+   leaves its stamp None. *)
+Theorem no_stamp_without_store : forall s w, att w s = false ->
+  (forall v, stamp (sh w (fst (step s (SetValue w v)))) = None) /\
+  (forall kvs, snd (step s (Update w kvs)) = ROk -> stamp (sh w (fst (step s (Update w kvs)))) = None) /\
+  (forall kvs, snd (step s (SetData w kvs)) = ROk -> stamp (sh w (fst (step s (SetData w kvs)))) = None) /\
+  (stamp (sh w (fst (step s (StampNow w)))) = None /\ snd (step s (StampNow w)) = RVal None) /\
+  (forall kvs, snd (step s (Create w kvs)) = ROk ->
+     forallb (fun kv => has (fst kv) (fl (sh w s))) kvs = false -> stamp (sh w (fst (step s (Create w kvs)))) = None).
+Proof. exact no_stamp_without_store_l. Qed.
+Print Assumptions no_stamp_without_store.
+
+(* attachment: changeStore(None) / changeStore(store) flip the reference of that share only and touch no
+   share's content; no other operation changes any attachment; an explicit stamp assignment sets exactly the stamp *)
+Theorem attachment_rules : forall s w,
+  (att w (fst (step s (Detach w))) = false /\ att w (fst (step s (Attach w))) = true /\
+   (forall w', sh w' (fst (step s (Detach w))) = sh w' s /\ sh w' (fst (step s (Attach w))) = sh w' s) /\
+   (forall w', w <> w' -> att w' (fst (step s (Detach w))) = att w' s /\ att w' (fst (step s (Attach w))) = att w' s)) /\
+  (forall o, is_attach_op o = false -> att w (fst (step s o)) = att w s) /\
+  (forall t, stamp (sh w (fst (step s (ForceStamp w t)))) = Some t /\
+             fl (sh w (fst (step s (ForceStamp w t)))) = fl (sh w s) /\ att w (fst (step s (ForceStamp w t))) = att w s).
+Proof. exact (fun s w => conj (detach_attach s w) (conj (fun o H => att_frame s o w H) (forcestamp_sets s w))). Qed.
+Print Assumptions attachment_rules.
+
+(* the data setter: a record with a non-public name is refused and nothing changes; an accepted one
+   replaces the fields by exactly the abstract map built from the pairs *)
+Theorem data_setter : forall s w kvs,
+  (snd (step s (SetData w kvs)) = ROk -> live (fl (sh w (fst (step s (SetData w kvs))))) = a_set_all kvs []) /\
+  (snd (step s (SetData w kvs)) <> ROk -> fst (step s (SetData w kvs)) = s).
+Proof. exact (fun s w kvs => conj (fun H => proj2 (setdata_stamps s w kvs H)) (setdata_rejected s w kvs)). Qed.
+Print Assumptions data_setter.
+
 (* change, share[k]=v, del share[k], lookups, every deck operation and every store time
-   advance leave every share's stamp alone: only value= / update / create / stampNow stamp. *)
+   advance leave every share's stamp alone: only value= / update / create / stampNow / data= stamp
+   (and an explicit assignment to .stamp, counted as stamping). *)
 Theorem change_keeps_stamp : forall s o w, stamping o = false -> stamp (sh w (fst (step s o))) = stamp (sh w s).
 Proof. exact nonstamping_keeps_stamp. Qed.
 Print Assumptions change_keeps_stamp.
@@ -149,4 +186,13 @@ Example c19_nonvacuous :
                          Update false [(k_x, 1)]] in
   items (fl (shA s)) = Some [(k_y, 3); (k_x, 5)] /\ stamp (shA s) = Some 2 /\ sstamp s = Some 3 /\
   deck (shA s) = [Some 4; Some 6] /\ stamp (shB s) = None /\ items (fl (shB s)) = Some [(k_x, 1)].
+Proof. vm_compute. repeat split; reflexivity. Qed.
+
+Example c19_storeless_nonvacuous :
+  let s := run (Some 0) [SetStamp 5; SetValue true 1; Detach true; Change true [(k_x, 1)]] in
+  stamp (shA s) = Some 5 /\ att true s = false /\
+  stamp (shA (fst (step s (Update true [(k_x, 2)])))) = None /\
+  stamp (shB (run (Some 0) [ForceStamp false 7; Change false [(k_x, 1)]])) = Some 7 /\
+  stamp (shB (run (Some 0) [ForceStamp false 7; Update false [(k_x, 1)]])) = None /\
+  stamp (shA (run (Some 0) [Detach true; Attach true; SetStamp 4; Update true [(k_x, 9)]])) = Some 4.
 Proof. vm_compute. repeat split; reflexivity. Qed.
